@@ -4,10 +4,10 @@ from datetime import date
 
 from .. import core, addsweep
 from ..core import Shard, run, res_replay
-from ..oracle import cal, dur
+from ..oracle import cal, dur, tzif
 
 MON_N = [1, 2, 3, 11, 12, 13, 24, 47, 48, 1200, 4800]
-YEAR_N = [1, 3, 4, 100, 400]
+YEAR_N = [1, 3, 4, 7, 28, 56, 84, 100, 400, 1000]
 QTR_N = [1, 4, 5]
 
 # calendar -> (months fn or None, years fn)
@@ -85,7 +85,71 @@ def dseq_task(task):
     return sh
 
 
+ZONES = ["Europe/Berlin", "America/New_York", "Australia/Lord_Howe", "Asia/Kolkata", "Pacific/Auckland", "America/St_Johns"]
+_ZC = {}
+
+
+def _zone(z):
+    if z not in _ZC:
+        _ZC[z] = tzif.load("/usr/share/zoneinfo/" + z)
+    return _ZC[z]
+
+
+def _loc(o, sod):
+    return cal.Day(o).ymd() + "T%02d:%02d:%02d" % (sod // 3600, sod // 60 % 60, sod % 60)
+
+
+def zone_task(task):
+    """date-times in a zone's wall clock (--from-zone Z --zone Z): months and years move the wall-clock date, the
+    time of day stays; operands on stdin lines and as the argument"""
+    bindir, zone, durs, n_months, cases = task
+    sh = Shard()
+    Z = _zone(zone)
+    keep = []
+    for o, sod in cases:
+        t = dur.add_months_ymd(o, n_months)
+        if t is None or not dur.in_range(t):
+            continue
+        l0 = (o - cal.ORD_UNIX) * 86400 + sod
+        l1 = (t - cal.ORD_UNIX) * 86400 + sod
+        # both wall-clock readings must exist exactly once
+        if len(Z.utc_candidates(l0)) != 1 or len(Z.utc_candidates(l1)) != 1:
+            continue
+        keep.append((_loc(o, sod), _loc(t, sod)))
+    if not keep:
+        return sh
+    base = [str(bindir / "dadd"), "--from-zone", zone, "--zone", zone]
+    argv = base + ["--"] + durs
+    r = run(argv, stdin=("\n".join(a for a, _ in keep) + "\n").encode(), cpu=60, wall=300)
+    sh.procs += 1
+    sh.check_san(r, "san", "zoneadd:%s" % zone)
+    outs, _ = core.align_lines([a for a, _ in keep], r)
+    outs = outs + [None] * (len(keep) - len(outs))
+    via = ["stdin"] * len(keep)
+    narg = min(6, len(keep))
+    for a, _ in keep[:narg]:
+        ra = run(base + [a] + durs, cpu=10, wall=60)
+        sh.procs += 1
+        sh.check_san(ra, "san", "zoneadd:%s" % zone)
+        outs.append(ra.out.decode("latin-1").rstrip("\n"))
+        via.append("arg")
+    unit = "y" if all(d.endswith("y") for d in durs) else "mo" if all(d.endswith("mo") for d in durs) else "mixed"
+    for (a, want), got, how in zip(keep + keep[:narg], outs, via):
+        c = ("zone-wallclock", how, unit, "clamped" if a[8:10] != want[8:10] else "kept", zone, len(durs))
+        if got == want:
+            sh.ok("zoneadd", c)
+        else:
+            sh.bad("zoneadd", "zoneadd:%s:%s:%s:%s" % (how, unit, c[3], "day" if (got or "")[:10] != want[:10] else "time"),
+                   "dadd --from-zone %s --zone %s %s %s -> %r, in the zone's wall clock that is %s" %
+                   (zone, zone, a, " ".join(durs), got, want),
+                   dict(argv=argv if how == "stdin" else base + [a] + durs, input=a if how == "stdin" else None,
+                        expected=want, observed=got), cls=c)
+    return sh
+
+
 def _dispatch(t):
+    if t[0] == "zone":
+        return zone_task(t[1])
     return dseq_task(t[1]) if t[0] == "dseq" else addsweep.add_task(t[1])
 
 
@@ -160,14 +224,36 @@ def main(tier, seed):
                 cross.append(("add", t[1] + (outs[i % len(outs)],)))
     tasks += cross
     tasks = [t for t in tasks if t[0] == "dseq" or t[1][4]]
-    tasks.sort(key=lambda t: -(len(t[1][4]) if t[0] == "add" else 50))
+    # date-times in a zone's wall clock
+    zdays = [o for o in ymd_days if date(1975, 1, 1).toordinal() <= o <= date(2036, 12, 31).toordinal()]
+    for zone in ZONES:
+        for _ in range(6 if quick else 60):
+            k = rng.randrange(4)
+            if k == 0:
+                n = rng.choice([1, -1]) * rng.choice(MON_N[:9])
+                durs, nm = ["%+dmo" % n], n
+            elif k == 1:
+                n = rng.choice([1, -1]) * rng.choice([1, 2, 3, 4, 5, 10])
+                durs, nm = ["%+dy" % n], 12 * n
+            elif k == 2:
+                a, b = rng.randrange(-5, 6), rng.randrange(-14, 15)
+                durs, nm = ["%+dy" % a, "%+dmo" % b], 12 * a + b
+            else:
+                a, b = rng.randrange(-30, 31), rng.randrange(-30, 31)
+                durs, nm = ["%+dmo" % a, "%+dmo" % b], a + b
+            cases = [(rng.choice(zdays), rng.choice([0, 1800, 3600, 7199, 9000, 43200, 75600, 84600, 86399, rng.randrange(86400)]))
+                     for _ in range(150)]
+            tasks.append(("zone", (bindir, zone, durs, nm, cases)))
+    tasks.sort(key=lambda t: -(len(t[1][4]) if t[0] in ("add", "zone") else 50))
     for sh in core.pmap(_dispatch, tasks):
         ctx.merge(sh)
     ctx.rule = ("events = (calendar, start day, signed month/quarter/year count[s]) with dadd's output compared to "
                 "the oracle (year/month moved by exactly N, day | weekday-count | business-day index | ISO week | "
                 "day-of-year kept and clamped); start days: dom in {1,15,28..31} of every month, ymcw count>=4, "
                 "ywd week>=52, yd Dec 30/31, bizda index>=19, plus random; N months +-%s, quarters +-%s, years "
-                "+-%s, random; two-step compositions in one invocation; dseq A Nmo B sequences. "
+                "+-%s, random; two-step compositions in one invocation; dseq A Nmo B sequences; date-times in a zone's "
+                "wall clock (dadd --from-zone Z --zone Z, 6 zones, operand on stdin lines and as the argument): the wall-clock "
+                "date moves by N months/years (clamped), the time of day stays, judged where both readings exist exactly once. "
                 "distinct_nontrivial = distinct (calendar, unit tag, sign, carry class, weekday)" %
                 (MON_N, QTR_N, YEAR_N))
     ctx.assumptions = ["ywd and yd have no months: only +Ny is judged there (dadd leaves them unchanged for +Nmo)",
